@@ -28,7 +28,7 @@ def short_fn(body):
     return r[len(FEIG):] if r.startswith(FEIG) else r
 
 
-def run(ctx, chk):
+def _run_own(ctx, chk):
     crate = ctx.crate("zvt_feig_terminal")
     # ---------------- (a) encapsulation + who-may-write
     adt = crate.adts.get("zvt_feig_terminal::feig::Feig")
@@ -372,3 +372,14 @@ def by_receipt(chk, crate):
         chk.require(rn is not None and strip_ref(rn)[0] == "path" and strip_ref(rn)[1] == "receipt_no", "C07-d/receipt", f.short,
                     "PreAuthReversal.receipt_no is %s, not the function's receipt_no argument" % (show(rn) if rn else None),
                     "receipt_no = argument", f.sp(st[0][0]))
+
+
+def run(ctx, chk):
+    _run_own(ctx, chk)
+    # one begin_transaction = one Reservation at the terminal: the retry wrapper re-issues a command only after a failed
+    # attempt, and a live exchange is not a failed one - its await budget is per packet (C10-a/per-await-budget)
+    import rules_c10
+    from report import Sub
+    sub = Sub(chk, "C07-e", lambda r: r == "C10-a/per-await-budget" or r == "C10-a/await-bounded",
+              instance_filter=lambda i: "into_stream_with_retry" in str(i))
+    rules_c10.run(ctx, sub)
